@@ -161,3 +161,15 @@ CASE_TYPE = '(pclass * bool * list (list token * option (list token)))'
 
 # Unicode whitespace that Python's str.strip() removes but the ASCII model does not: kept out of every generator
 NON_ASCII_WS = '\x85\xa0                　'
+
+
+def names_ascii(*streams):
+    """tag and attribute names must be ASCII for the model (str.lower/isalpha/isalnum are transcribed for ASCII only)"""
+    for ts in streams:
+        for t in ts or []:
+            if t[0] in ('S', 'E'):
+                if not t[1].isascii():
+                    return False
+                if t[0] == 'S' and any(not k.isascii() for k, v in t[2]):
+                    return False
+    return True
